@@ -1460,7 +1460,10 @@ func partF() {
 		aead := ref.recv
 		all := s.ab.Recorded()
 		if _, err := aead.Open(nil, nonce(0), all[hsLen-frameSize:hsLen], nil); err != nil {
-			r.HarnessError("part F: the reference keys do not open the recorded handshake frame of session %s", seed)
+			// the real side does not follow the specified key schedule / nonce sequence (interop defect, cf. part I): the
+			// nonce oracle cannot be evaluated for this session
+			fviol(0, "F/handshake-frame-of-the-real-side-does-not-open-under-the-reference-key-schedule session="+seed, nil)
+			return
 		}
 		maxN := uint64(len(recs) + 3)
 		cands := make([][]uint64, len(recs))
